@@ -14,7 +14,9 @@
 (*     of at most Cap entries, an optional hash index with continuation    *)
 (*     flags -- e2fsck/rehash.c), one file mapping (sorted extent list or  *)
 (*     block map plus the metadata blocks that hold it -- e2fsck/          *)
-(*     extents.c; every extent is written or unwritten = fallocated: a     *)
+(*     extents.c; its i_size against the mapping and the limits of the     *)
+(*     format -- pass1.c check_blocks;                                     *)
+(*     every extent is written or unwritten = fallocated: a                *)
 (*     read of an unwritten block returns zeros whatever the disk holds),  *)
 (*     the directory's name semantics (casefold flag of the directory,     *)
 (*     strict-encoding flag of the filesystem, names that are not valid    *)
@@ -62,7 +64,11 @@ CONSTANTS Hashes,      \* hash values of the model names (names sharing a hash =
                                      \* the bytes: pass 2 cannot reproduce the hashes stored in the index ("bad max hash"), clears
                                      \* the index, pass 3A cannot rebuild it ("Failed to optimize directory"), and the block that
                                      \* held the index root is left without the checksum tail of a linear block
-          DevDupFoldsPlainDir        \* the duplicate search of the directory rebuild compares case-insensitively in a directory without the casefold flag
+          DevDupFoldsPlainDir,       \* the duplicate search of the directory rebuild compares case-insensitively in a directory without the casefold flag
+          BSz,                       \* bytes per block of the model file (i_size is counted in these bytes)
+          SizeClasses,               \* i_size classes of a start: subset of SizeClassSet (relative to the mapping and to the format limit)
+          DevSizeLimitInclusive      \* pass 1 takes a block-mapped file whose i_size EQUALS the largest size the block map can express for
+                                     \* too big (>= instead of >) and rewrites i_size to the end of the last mapped block
 
 Modes == {"p", "y", "yD", "b2e", "fo"}       \* -fp, -fy, -fyD, -fy -E bmap2extent, -fy -E fixes_only
 
@@ -90,14 +96,14 @@ VARIABLES
   \* ---- representation: the directory
   leaves, index, indexed, cfm,
   \* ---- representation: the file mapping
-  exts, kind, meta,
+  exts, kind, meta, fsize,
   \* ---- representation: allocation summaries and checksum fields
   bitmap, freecnt, uninit, badcsum,
   \* ---- bookkeeping
   dmg, runs
 
 absvars == <<tree, tree0, cons, exit, mode, dmgd, dch, mch, lin3>>
-repvars == <<leaves, index, indexed, cfm, exts, kind, meta, bitmap, freecnt, uninit, badcsum>>
+repvars == <<leaves, index, indexed, cfm, exts, kind, meta, fsize, bitmap, freecnt, uninit, badcsum>>
 vars == <<absvars, repvars, dmg, runs>>
 
 (***************************************************************************)
@@ -145,7 +151,38 @@ InitMap(es) == UNION {{<<e[1] + i, e[3] + i, e[4]>> : i \in 0..(e[2] - 1)} : e \
 
 \* what the user sees: which names exist (as a bag) and which physical block backs each logical block of the file
 \* (data blocks are never moved by the modelled repairs, so the block a logical offset maps to stands for its bytes)
-AbsTree(lv, es) == [names |-> [n \in Names |-> Count(lv, n)], content |-> Readable(es)]
+\* ---- i_size (pass1.c check_blocks, the branch for everything that is not a directory).  The size of a regular file is a
+\* fact of its own, independent of the mapping: a file may end in a hole (truncate up), may end inside its last block, may own
+\* unwritten blocks past its end (fallocate KEEP_SIZE) and pass 1 also tolerates written blocks past the end as long as the
+\* LAST written block still starts at or below i_size (`size < last_init_lblock * blocksize` is the test).  The only upper
+\* bound is what the mapping format can express:
+\*   block map: every addressable block full -- (12 + n + n^2 + n^3) * blocksize, n = blocksize / 4 (ext2_max_sizes[]); a size
+\*              EQUAL to it is the largest healthy size (`size > ext2_max_sizes`), what truncate -s max gives on ext2/ext3;
+\*   extents:   ee_block is 32 bits and block 2^32 - 1 cannot be mapped: 2^32 * blocksize - 1 (`size > (1 << (32 + bits)) - 1`).
+\* In the model LBlks are the addressable logical blocks of both formats.
+MaxLblk == IF LBlks = {} THEN -1 ELSE CHOOSE b \in LBlks : \A c \in LBlks : c <= b
+LastBlk(es) == IF Len(es) = 0 THEN -1 ELSE es[Len(es)][1] + es[Len(es)][2] - 1
+LastInit(es) == LET w == {k \in DOMAIN es : es[k][4] = "w"}
+                IN  IF w = {} THEN -1 ELSE LET k == CHOOSE a \in w : \A b \in w : b <= a IN es[k][1] + es[k][2] - 1
+SizeLimit(kd) == IF kd = "ind" THEN (MaxLblk + 1) * BSz ELSE (MaxLblk + 2) * BSz - 1
+TooSmall(sz, es) == LastInit(es) >= 0 /\ sz < LastInit(es) * BSz
+SizeOK(sz, es, kd) == sz >= 0 /\ ~TooSmall(sz, es) /\ sz <= SizeLimit(kd)
+\* what pass 1 calls a bad size (bad_size = 3, 4, 6); PR_1_BAD_I_SIZE is answered yes in every repairing mode, preen included
+Pass1SizeBad(sz, es, kd) == \/ TooSmall(sz, es)
+                            \/ sz > SizeLimit(kd)
+                            \/ (DevSizeLimitInclusive /\ kd = "ind" /\ sz = SizeLimit(kd))
+Pass1Size(sz, es, kd) == IF Pass1SizeBad(sz, es, kd) THEN (LastBlk(es) + 1) * BSz ELSE sz
+\* the i_size classes of a start, each relative to the mapping or to the limit of the format
+SizeClassSet == {"end", "end_partial", "last_init_first_byte", "sparse_tail", "max_minus1", "max"}
+SizeOf(c, es, kd) == CASE c = "end" -> (LastBlk(es) + 1) * BSz                    \* the file ends with its last mapped block
+                       [] c = "end_partial" -> (LastBlk(es) + 1) * BSz - 1        \* ... inside its last mapped block
+                       [] c = "last_init_first_byte" -> LastInit(es) * BSz        \* smallest size the written blocks allow (blocks past EOF)
+                       [] c = "sparse_tail" -> (LastBlk(es) + 2) * BSz            \* a hole behind the last mapped block
+                       [] c = "max_minus1" -> SizeLimit(kd) - 1
+                       [] c = "max" -> SizeLimit(kd)
+
+\* the bytes below i_size are the content; the size is observable by itself (stat)
+AbsTree(lv, es, sz) == [names |-> [n \in Names |-> Count(lv, n)], content |-> {c \in Readable(es) : c[1] * BSz < sz}, size |-> sz]
 
 Owned(es, mt) == {c[2] : c \in Covered(es)} \cup mt
 
@@ -176,6 +213,7 @@ MapOK ==
     /\ meta \subseteq MetaBlks /\ Cardinality(meta) <= 1
     /\ IF kind = "ext" THEN (Len(exts) > InoExt => meta # {})
        ELSE (meta # {}) = (\E c \in Covered(exts) : c[1] >= NDirect)
+    /\ SizeOK(fsize, exts, kind)
 
 SummOK ==
     /\ bitmap = Owned(exts, meta)
@@ -265,10 +303,11 @@ Init ==
        \* un = first blocks of the extents that are unwritten (a block map has no such state)
        \E un \in (IF kd = "ind" \/ "u" \notin InitExtStates THEN {{}} ELSE SUBSET ExtStarts(f, cuts)) :
          /\ exts = ExtsOf(f, cuts, un) /\ kind = kd /\ meta = mt
+    /\ \E c \in SizeClasses : fsize = SizeOf(c, exts, kind)
     /\ bitmap = Owned(exts, meta) /\ freecnt = Cardinality(AllBlks) - Cardinality(bitmap)
     /\ uninit \in {u \in BOOLEAN : u => bitmap = {}} /\ badcsum = {}
     /\ DirOK /\ MapOK
-    /\ tree = AbsTree(leaves, exts) /\ tree0 = tree /\ cons = TRUE
+    /\ tree = AbsTree(leaves, exts, fsize) /\ tree0 = tree /\ cons = TRUE
     /\ exit = 0 /\ mode = "none" /\ dmgd = FALSE /\ dch = FALSE /\ mch = FALSE /\ lin3 = FALSE /\ dmg = 0 /\ runs = 0
 
 (***************************************************************************)
@@ -284,7 +323,7 @@ Damage ==
        \/ uninit' = ~uninit /\ UNCHANGED <<bitmap, freecnt, badcsum>>
        \/ \E o \in CsumObjs \ badcsum : badcsum' = badcsum \cup {o} /\ UNCHANGED <<bitmap, freecnt, uninit>>
     /\ dmg' = dmg + 1
-    /\ UNCHANGED <<tree, tree0, exit, mode, dmgd, dch, mch, lin3, leaves, index, indexed, cfm, exts, kind, meta, runs>>
+    /\ UNCHANGED <<tree, tree0, exit, mode, dmgd, dch, mch, lin3, leaves, index, indexed, cfm, exts, kind, meta, fsize, runs>>
     /\ cons' = RepOK'
 
 (***************************************************************************)
@@ -311,18 +350,20 @@ Fsck(m) ==
            doRemap == (m = "b2e" /\ kind = "ind") \/ (m \notin {"fo", "p"} /\ CanCollapse)
            mapN == IF wipe THEN [exts |-> <<>>, kind |-> kind, meta |-> {}]
                    ELSE IF doRemap THEN Rebuild(exts) ELSE [exts |-> exts, kind |-> kind, meta |-> meta]
+           \* pass 1 check_blocks: i_size against the mapping as found (before any rebuild) and against the limit of its format
+           szN  == IF wipe THEN 0 ELSE Pass1Size(fsize, exts, kind)
            sbstuck == DevSbCsumRefuses /\ "sb" \in badcsum
            own  == Owned(mapN.exts, mapN.meta)
-           changed == damaged \/ dirN.leaves # leaves \/ dirN.index # index \/ mapN.exts # exts \/ mapN.meta # meta \/ mapN.kind # kind
+           changed == damaged \/ dirN.leaves # leaves \/ dirN.index # index \/ mapN.exts # exts \/ mapN.meta # meta \/ mapN.kind # kind \/ szN # fsize
        IN  \/ \* repair
               /\ ~sbstuck /\ ~(m = "p" /\ idxlost)
               /\ leaves' = dirN.leaves /\ index' = dirN.index /\ indexed' = dirN.indexed /\ cfm' = cfm
-              /\ exts' = mapN.exts /\ kind' = mapN.kind /\ meta' = mapN.meta
+              /\ exts' = mapN.exts /\ kind' = mapN.kind /\ meta' = mapN.meta /\ fsize' = szN
               /\ bitmap' = own /\ freecnt' = Cardinality(AllBlks) - Cardinality(own)          \* pass 5
               /\ uninit' = (uninit /\ own = {}) /\ badcsum' = (IF idxlost THEN {"dirblk0"} ELSE {})
               /\ exit' = IF changed THEN 1 ELSE 0
               /\ dch' = (dirN.leaves # leaves \/ dirN.index # index) /\ mch' = (mapN.exts # exts \/ mapN.kind # kind \/ mapN.meta # meta)
-              /\ tree' = AbsTree(dirN.leaves, mapN.exts)
+              /\ tree' = AbsTree(dirN.leaves, mapN.exts, szN)
               /\ dmgd' = damaged /\ lin3' = big
            \/ \* (literal) the primary superblock does not verify and no backup is found: e2fsck gives up
               /\ sbstuck
@@ -402,6 +443,32 @@ CfSizeClasses == {"one_block", "indexed"}
 CfDirFamily == {<<m, f, k, z>> \in EncModes \X CfDirFlags \X NameKinds \X CfSizeClasses :
                   /\ (f = "folded" => k \notin TwinNameKinds)
                   /\ (f = "folded" /\ m = "strict" => k \notin InvalidNameKinds)}
+
+\* ---- i_size boundaries (pass1.c check_blocks / e2fsck_pass1_check_symlink): one healthy file per element, built by the tools
+\* (debugfs write of a sparse host file; set_inode_field size where the class is a size no mapped block reaches), on one small
+\* carrier per (mapping format, block size).  Classes are relative to the file's mapping or to the limit of the format, as
+\* SizeClassSet above; the limits themselves are the format's:
+\*   block map  IndMaxBlocks(n) = 12 + n + n^2 + n^3 addressable blocks, n = blocksize / 4 pointers per block
+\*   extents    2^ExtLblkBits logical block numbers, the last of which cannot be mapped (a length would overflow):
+\*              largest size 2^ExtLblkBits * blocksize - 1, last mappable block 2^ExtLblkBits - 2
+\*   symlinks   a target shorter than FastSymlinkArea = 60 bytes (i_block) is stored in the inode, a longer one in ONE block together
+\*              with its terminating NUL: lengths 59 | 60 and blocksize - 2 | blocksize - 1
+\*   directory  i_size is the number of blocks times the block size, nothing else (class "blocks"); not an observable of the
+\*              property (the tree oracle does not compare it), the entries are
+SizeBlockSizes == {1024, 4096}
+IndMaxBlocks(n) == 12 + n + n * n + n * n * n
+ExtLblkBits == 32
+FastSymlinkArea == 60
+RegSizeClasses == SizeClassSet \cup
+                  {"max_last_block_mapped",     \* the last block the format can map is mapped and full (for a block map this IS the maximum size)
+                   "unwritten_past_eof",        \* fallocate KEEP_SIZE: unwritten extents behind i_size (extents only)
+                   "huge_file_iblocks"}         \* EXT4_HUGE_FILE_FL: i_blocks counted in filesystem blocks (huge_file feature)
+SymlinkSizeClasses == {"fast_max", "slow_min", "slow_max_minus1", "slow_max"}
+SizeFamily == {<<t, m, b, c>> \in {"reg"} \X {"ind", "ext"} \X SizeBlockSizes \X RegSizeClasses :
+                 (c \in {"unwritten_past_eof", "huge_file_iblocks"} => m = "ext")} \cup
+              ({"lnk"} \X {"ind", "ext"} \X SizeBlockSizes \X SymlinkSizeClasses) \cup
+              ({"dir"} \X {"ind", "ext"} \X SizeBlockSizes \X {"blocks"})
+SizeLimits == [b \in SizeBlockSizes |-> [indmaxblocks |-> IndMaxBlocks(b \div 4), extlblkbits |-> ExtLblkBits, fastsymlink |-> FastSymlinkArea]]
 
 SummaryKinds ==
     {<<"bb", v>> : v \in {"clear_data", "clear_index", "clear_dirblock", "clear_fixed", "set_free", "clear_padding"}} \cup
